@@ -42,7 +42,7 @@ ANCHORS = ['pfhedge.nn.modules.hedger:Hedger.fit',
            'pfhedge.nn.modules.hedger:Hedger.compute_loss',
            'pfhedge._utils.operations:ensemble_mean']
 DECIDING = ["trace.automaton", "reference.parameters", "reference.history", "steps.count"]
-REQUIRED_BRANCHES = ["k=0", "k>=2", "validation.off", "n_times>1", "optimizer.class", "optimizer.instance", "model.lazy", "model.dropout", "stale_grad",
+REQUIRED_BRANCHES = ["criterion_with_parameters.optimizer_instance_over_hedger", "k=0", "k>=2", "validation.off", "n_times>1", "optimizer.class", "optimizer.instance", "model.lazy", "model.dropout", "stale_grad",
                      "init_state.given"]
 
 _CTX = None
@@ -111,6 +111,10 @@ def setup(ctx):
     register_optimizer_step_post_hook(post)
 
 
+def _oce_utility(x):
+    return -torch.exp(-x)
+
+
 class SGDDefault(SGD):
     def __init__(self, params):
         super().__init__(params, lr=0.05)
@@ -135,7 +139,11 @@ def build(rng):
         model = torch.nn.Linear(n_in, n_h)
     else:
         model = MultiLayerPerceptron(in_features=n_in, out_features=n_h, n_layers=2, n_units=5)
-    crit = pick(rng, [EntropicRiskMeasure(), ExpectedShortfall(0.5), EntropicRiskMeasure(2.0)])
+    crit = pick(rng, [EntropicRiskMeasure(), ExpectedShortfall(0.5), EntropicRiskMeasure(2.0), "oce", "oce"])
+    if crit == "oce":
+        from pfhedge.nn.modules.loss import OCE
+
+        crit = OCE(_oce_utility)  # a criterion with its own learnable parameter w (trained only by optimisers that hold it)
     hedger = Hedger(model, feats, criterion=crit)
     return derivative, hedge, hedger, mk, hk
 
@@ -252,6 +260,8 @@ def drv_fit(ctx, k_, rng):
         ctx.branch("model.dropout")
     if s is not None:
         ctx.branch("init_state.given")
+    if opt_kind == "sgd_inst" and any(True for _ in hedger.criterion.parameters()) and k > 0:
+        ctx.branch("criterion_with_parameters.optimizer_instance_over_hedger")
     if opt_kind.endswith("inst") and lazy:
         derivative.simulate(n_paths=1)
         with torch.no_grad():
